@@ -3,10 +3,12 @@
 // little-endian f32 values, each row split into means | variances | msd").  The reader is a closure inside parse_model,
 // which is nom all the way down; its statements are cut from the text on every run (SLICE) and compiled in a module
 // where nom's names (many_m_n, map, le_u32, le_f32) are bound to a minimal combinator set over a pre-decoded number
-// stream (what the stand-ins drop: byte decoding and nom's capacity cap; assumed).  ModelParameter::from_linear is the
+// stream (what the stand-ins drop: byte decoding, error kinds and nom's initial-capacity cap; their loop and the
+// must-consume guard of many_m_n follow nom 8.0.0's source; assumed, a model of the dependency).  ModelParameter::from_linear is the
 // real one.  Bounded: 2 trees, counts (2, 1), pdf_len 3, concrete values.
 //@harness name=pdf_block_counts_then_rows_per_tree tier=quick label=bounded(2-trees,3-rows,pdf_len=3,concrete-values) props=C04 timeout=900
 //@harness name=pdf_block_short_input_is_an_error tier=quick label=bounded(2-trees,truncated) props=C04,C18 timeout=900
+//@harness name=pdf_block_rows_are_backed_by_input tier=quick label=bounded(1-tree,counts<=3,pdf_len<=1) props=C18 timeout=900
 use crate::model::voice::model::ModelParameter;
 use nom::IResult;
 
@@ -36,9 +38,29 @@ impl<P: SP, O, F: FnMut(P::Out) -> O> SP for Map<P, F> {
     type Out = O;
     fn parse<'a>(&mut self, i: SIn<'a>) -> IResult<SIn<'a>, O, SErr> { let (r, v) = self.p.parse(i)?; Ok((r, (self.f)(v))) }
 }
+// many_m_n as in nom 8.0.0 (src/multi/mod.rs, ManyMN::process) for min == max: run the parser up to n times; an
+// iteration that succeeds WITHOUT consuming input is an error (nom's "the parser must always consume" guard), an
+// iteration that fails is an error (count < min).  n == 0 succeeds with nothing consumed.
 pub struct Many<P> { n: usize, p: P }
 fn many_m_n<P: SP>(m: usize, n: usize, p: P) -> Many<P> { assert!(m == n); Many { n, p } }
 impl<P: SP> SP for Many<P> {
+    type Out = Vec<P::Out>;
+    fn parse<'a>(&mut self, mut i: SIn<'a>) -> IResult<SIn<'a>, Vec<P::Out>, SErr> {
+        let mut v = Vec::new();
+        let mut k = 0;
+        while k < self.n {
+            let (r, x) = self.p.parse(i)?;
+            if r.pos == i.pos { return Err(nom::Err::Error(SErr)); }
+            v.push(x); i = r; k += 1;
+        }
+        Ok((i, v))
+    }
+}
+// count as in nom 8.0.0 (Count::process): run the parser exactly n times, no consumption guard
+pub struct Count<P> { n: usize, p: P }
+#[allow(dead_code)]
+fn count<P: SP>(p: P, n: usize) -> Count<P> { Count { n, p } }
+impl<P: SP> SP for Count<P> {
     type Out = Vec<P::Out>;
     fn parse<'a>(&mut self, mut i: SIn<'a>) -> IResult<SIn<'a>, Vec<P::Out>, SErr> {
         let mut v = Vec::new();
@@ -92,4 +114,35 @@ fn pdf_block_short_input_is_an_error() {
     match &r3 { Ok((rest, pdf)) => assert!(rest.pos == 0 && pdf.is_empty()), Err(_) => assert!(false) }
     kani::cover!(true);
     std::mem::forget((r, r2, r3));
+}
+
+/// C18 ("never tries to allocate unbounded memory"): the rows the reader produces are backed by input it consumed -
+/// the number of PDFs it hands back never exceeds the number of values it read, whatever count the block announces.
+/// A zero PDF length (a header number of 0) with a non-zero count is therefore an error, not `count` empty rows.
+#[kani::proof]
+#[kani::unwind(8)]
+fn pdf_block_rows_are_backed_by_input() {
+    let trees = vec![0u8];
+    let mut n = 0;
+    while n <= 3 {
+        let mut len = 0;
+        while len <= 1 {
+            let t = [n as f64, 1.0];                         // the announced count, then at most one value
+            let r = pdf_block(SIn { t: &t, pos: 0 }, &trees, len);
+            match &r {
+                Ok((rest, pdf)) => {
+                    let mut rows = 0;
+                    let mut k = 0;
+                    while k < pdf.len() { rows += pdf[k].len(); k += 1; }
+                    assert!(rows <= rest.pos);
+                    assert!(pdf.len() == 1 && pdf[0].len() == n);
+                }
+                Err(_) => assert!(n > 0),                    // an announced count of 0 always loads (no rows)
+            }
+            std::mem::forget(r);
+            len += 1;
+        }
+        n += 1;
+    }
+    kani::cover!(true);
 }
